@@ -35,6 +35,41 @@ def specFor (o : Oracle) (id : String) : Option Spec := do
     pure (if k.isExternal then ⟨f.key, f.optional, c.ser, askOracle o f.key⟩
           else ⟨f.key, f.optional, c.ser, c.de⟩)
 
+/-- the Lean model of an external codec, where there is one (`Derive.relationsCodec`,
+    `Derive.versionCodec`; Props/C20Ext proves the per-field conditions for them) -/
+def modelledExt (f : FieldRow) : Option LeafCodec :=
+  if f.ty == c!"Relations" && f.ser.isEmpty && f.de.isEmpty then some relationsCodec
+  else if f.ty == c!"debversion::Version" then some versionCodec
+  else none
+
+/-- same verdict, and the same canonical text when accepted (error texts are not compared) -/
+def extAgree (real : Except Str Str) (model : Except Str Val) : Bool :=
+  match real, model with
+  | .ok s, .ok (.ext m) => s == m
+  | .error _, .error _ => true
+  | _, _ => false
+
+/-- keys of the supplied answers that differ from the modelled codec of a field of one of the structs
+    `ids` (must be empty: the answers come from the real `Relations` / `Version` code) -/
+def extMismatch (o : Oracle) (ids : List String) : List Str :=
+  let fields := (Gen.Structs.all.filter fun s => ids.contains (String.ofList s.name)).flatMap (·.fields)
+  o.filterMap fun e =>
+    if fields.any (fun f => f.key == e.1.1 && (match kindOf f with | some k => k.isExternal | none => false) &&
+        (match modelledExt f with
+         | some c => !(extAgree e.2 (c.de e.1.2))
+         | none => false))
+    then some e.1.1 else none
+
+/-- `obs[\t!findings]` with a marker appended to the observables when a supplied answer disagrees with
+    the modelled codec (the worker never prints it, so the line then differs) -/
+def markMismatch (mm : List Str) (r : String) : String :=
+  if mm.isEmpty then r
+  else
+    let mark := " ext-model-differs=" ++ ",".intercalate (mm.map encStr)
+    match r.splitOn "\t" with
+    | a :: rest => "\t".intercalate ((a ++ mark) :: rest)
+    | [] => r ++ mark
+
 structure KindInfo where
   kind : DocKind
   /-- struct ids in the order `docOf` lists the paragraphs: first, then the repeated ones -/
@@ -110,12 +145,7 @@ def trigHashEnv (ki : KindInfo) (v : TV) : Bool :=
   (structsOf ki v).any fun p => p.1 == "buildinfo.Buildinfo" &&
     p.2.any fun f => f.1 == c!"Environment" && hasInfix hashLine f.2
 
-def handle (op : String) (args : List String) : Option String :=
-  match op.splitOn ".", args with
-  | ["typed", name], [t, e] => do
-    let s ← decStr t
-    let o ← decOracle e
-    let ki ← kindFor o name
+def handleCore (ki : KindInfo) (s : Str) : Option String := do
     let r1 := parse ki.kind s
     let ll : String :=
       if ki.lossyReader then
@@ -146,6 +176,15 @@ def handle (op : String) (args : List String) : Option String :=
         let p2 := showTV ki v2
         let t2 := print ki.kind v2
         pure (s!"p1={p1} t1={encStr t1} p2={if p2 == p1 then "same" else p2} t2={if t2 == t1 then "same" else encStr t2} ll={ll}" ++ sfx)
+
+def handle (op : String) (args : List String) : Option String :=
+  match op.splitOn ".", args with
+  | ["typed", name], [t, e] => do
+    let s ← decStr t
+    let o ← decOracle e
+    let ki ← kindFor o name
+    let r ← handleCore ki s
+    pure (markMismatch (extMismatch o ki.ids) r)
   | _, _ => none
 
 end Deb822Verif.Driver.TypedDoc
